@@ -27,11 +27,12 @@ VARIABLES
   res,     \* [P |-> result of prove, V |-> result of verify]; "" = not finished
   cberr,   \* [P |-> first error a second-phase callback returned, V |-> ...]
   degen,   \* TRUE once the run hit an event of negligible probability on real curves
-  out      \* observable outputs of the last action (returned value, error, RNG scalars used)
+  out      \* observable outputs of the last action (returned value, error, RNG scalars used,
+           \* and what the reference prover would have emitted)
 
 vars == << env, cs, tr, ph, mid, wire, sent, res, cberr, degen, out >>
 
-NoOut == [ret |-> << >>, err |-> "", used |-> 0]
+NoOut == [ret |-> << >>, err |-> "", used |-> 0, ref |-> << >>]
 
 NoProof == << >>
 Roles == {"P", "V"}
@@ -83,28 +84,40 @@ Call(role, c) ==
        /\ cs' = [cs EXCEPT ![role] = r.st]
        /\ tr' = [tr EXCEPT ![role] = @ \o r.ops]
        /\ cberr' = [cberr EXCEPT ![role] = IF ph[role] = "cb" THEN r.err ELSE ""]
-       /\ out' = [ret |-> r.ret, err |-> r.err, used |-> 0]
+       /\ out' = [ret |-> r.ret, err |-> r.err, used |-> 0, ref |-> << >>]
   /\ UNCHANGED << env, ph, mid, wire, sent, res, degen >>
 
+(***************************************************************************)
+(* Proving.  The specification separates what any prover does (absorb what *)
+(* it emits, in the fixed order; emit a proof containing what it absorbed) *)
+(* from what the reference prover emits (RefEm, out.ref): the parameters   *)
+(* em / pf are the commitments / the proof the prover puts on the wire.    *)
+(* An honest run takes em = RefEm(..) and pf = the reference proof.        *)
+(***************************************************************************)
+RefEm(m) == [AI1 |-> m.AI1, AO1 |-> m.AO1, S1 |-> m.S1]
+
 (* prove, up to the point where the second-phase callbacks start *)
-ProveStart(cap, d) ==
+ProveStart(cap, d, em) ==
   /\ ph.P = "build" /\ cs.P.ndefer > 0
   /\ LET r == ProveP1(env.P, cap, cs.P, d) IN
        /\ r.res = ""
        /\ cs' = [cs EXCEPT !.P = r.st]
-       /\ tr' = [tr EXCEPT !.P = @ \o r.ops]
-       /\ mid' = [mid EXCEPT !.P = r.mid]
+       /\ tr' = [tr EXCEPT !.P = @ \o P1Ops(cs.P, em)]
+       /\ mid' = [mid EXCEPT !.P = [ref |-> r.mid, em |-> em]]
        /\ ph' = [ph EXCEPT !.P = "cb"]
-       /\ out' = [ret |-> << >>, err |-> "", used |-> r.used]
+       /\ out' = [ret |-> << >>, err |-> "", used |-> r.used, ref |-> RefEm(r.mid)]
   /\ UNCHANGED << env, wire, sent, res, cberr, degen >>
 
-FinishProve(r) ==
-  /\ tr' = [tr EXCEPT !.P = @ \o r.ops]
+\* r: result of the reference computation; pn: padded size; em: what was absorbed in the first part
+FinishProve(r, pre, pn, em, pf) ==
+  /\ r.res = "ok" => /\ pf # NoProof
+                     /\ pf.AI1 = em.AI1 /\ pf.AO1 = em.AO1 /\ pf.S1 = em.S1    \* sends what it absorbed
+  /\ tr' = [tr EXCEPT !.P = @ \o pre \o (IF r.res = "ok" THEN P2Ops(pn, pf) ELSE r.ops)]
   /\ res' = [res EXCEPT !.P = r.res]
   /\ degen' = (degen \/ r.degenerate)
-  /\ wire' = IF r.res = "ok" THEN r.proof ELSE NoProof
+  /\ wire' = IF r.res = "ok" THEN pf ELSE NoProof
   /\ sent' = wire'
-  /\ out' = [ret |-> << >>, err |-> "", used |-> r.used]
+  /\ out' = [ret |-> << >>, err |-> "", used |-> r.used, ref |-> r.proof]
   /\ ph' = [ph EXCEPT !.P = "done"]
 
 (* the callbacks returned an error: prove returns it *)
@@ -116,27 +129,43 @@ ProveAbort ==
   /\ UNCHANGED << env, cs, tr, mid, wire, sent, cberr, degen >>
 
 (* prove, after the callbacks *)
-ProveFinish(cap, d, ch) ==
+ProveFinish(cap, d, ch, pf) ==
   /\ ph.P = "cb" /\ cberr.P = ""
-  /\ FinishProve(ProveP2(env.P, cap, cs.P, mid.P, d, ch))
+  /\ LET r == ProveP2(env.P, cap, cs.P, mid.P.ref, d, ch) IN      \* LET: evaluated once
+       FinishProve(r, << >>, Pad2(PLen(cs.P)), mid.P.em, pf)
   /\ UNCHANGED << env, cs, mid, cberr >>
 
 (* prove without callbacks (or failing before them): both parts in one step *)
-Prove(cap, d, ch) ==
+ProveBoth(r1, r2, em, pf) ==
+  IF r1.res # ""
+  THEN /\ tr' = [tr EXCEPT !.P = @ \o r1.ops]
+       /\ res' = [res EXCEPT !.P = r1.res]
+       /\ ph' = [ph EXCEPT !.P = "done"]
+       /\ out' = NoOut
+       /\ UNCHANGED << env, cs, mid, wire, sent, cberr, degen >>
+  ELSE /\ cs.P.ndefer = 0
+       /\ IF r2.res = "InvalidGeneratorsLength"
+          THEN /\ tr' = [tr EXCEPT !.P = @ \o P1Ops(cs.P, em)]      \* the first part was performed
+               /\ res' = [res EXCEPT !.P = r2.res]
+               /\ ph' = [ph EXCEPT !.P = "done"]
+               /\ out' = [ret |-> << >>, err |-> "", used |-> r1.used, ref |-> << >>]
+               /\ UNCHANGED << wire, sent, degen >>
+          ELSE FinishProve([r2 EXCEPT !.used = r1.used + r2.used], P1Ops(cs.P, em), Pad2(PLen(cs.P)), em,
+                           IF r2.res = "ok" THEN pf ELSE NoProof)
+       /\ cs' = [cs EXCEPT !.P = r1.st]
+       /\ mid' = [mid EXCEPT !.P = [ref |-> r1.mid, em |-> em]]
+       /\ UNCHANGED << env, cberr >>
+
+Prove(cap, d, ch, pf) ==
   /\ ph.P = "build"
-  /\ LET r1 == ProveP1(env.P, cap, cs.P, d) IN
-       IF r1.res # ""
-       THEN /\ tr' = [tr EXCEPT !.P = @ \o r1.ops]
-            /\ res' = [res EXCEPT !.P = r1.res]
-            /\ ph' = [ph EXCEPT !.P = "done"]
-            /\ out' = NoOut
-            /\ UNCHANGED << env, cs, mid, wire, sent, cberr, degen >>
-       ELSE /\ cs.P.ndefer = 0
-            /\ LET r2 == ProveP2(env.P, cap, r1.st, r1.mid, IF Len(d) >= r1.used THEN Drop(d, r1.used) ELSE << >>, ch) IN
-                 /\ FinishProve([r2 EXCEPT !.ops = r1.ops \o r2.ops, !.used = r1.used + r2.used])
-                 /\ cs' = [cs EXCEPT !.P = r1.st]
-                 /\ mid' = [mid EXCEPT !.P = r1.mid]
-            /\ UNCHANGED << env, cberr >>
+  /\ LET r1 == ProveP1(env.P, cap, cs.P, d)
+         r2 == IF r1.res = ""
+               THEN ProveP2(env.P, cap, r1.st, r1.mid, IF Len(d) >= r1.used THEN Drop(d, r1.used) ELSE << >>, ch)
+               ELSE << >>
+         em == IF pf # NoProof
+               THEN [AI1 |-> pf.AI1, AO1 |-> pf.AO1, S1 |-> pf.S1]
+               ELSE IF r1.res = "" THEN RefEm(r1.mid) ELSE << >>
+     IN ProveBoth(r1, r2, em, pf)
 
 (* the adversary replaces whatever is on the wire *)
 Adversary(pf) ==
@@ -171,21 +200,24 @@ FinishVerify(r) ==
 
 VerifyFinish(cap, ch) ==
   /\ ph.V = "cb" /\ cberr.V = ""
-  /\ FinishVerify(VerifyP2(env.V, cap, cs.V, mid.V.n1, wire, ch))
+  /\ LET r == VerifyP2(env.V, cap, cs.V, mid.V.n1, wire, ch) IN FinishVerify(r)
   /\ UNCHANGED << env, cs, mid, wire, sent, cberr >>
+
+VerifyBoth(r1, r2) ==
+  IF r1.res # ""
+  THEN /\ FinishVerify([res |-> r1.res, ops |-> r1.ops, degenerate |-> FALSE])
+       /\ UNCHANGED << env, cs, mid, wire, sent, cberr >>
+  ELSE /\ cs.V.ndefer = 0
+       /\ FinishVerify([r2 EXCEPT !.ops = r1.ops \o r2.ops])
+       /\ cs' = [cs EXCEPT !.V = r1.st]
+       /\ mid' = [mid EXCEPT !.V = [n1 |-> r1.n1]]
+       /\ UNCHANGED << env, wire, sent, cberr >>
 
 Verify(cap, ch) ==
   /\ ph.V = "build" /\ wire # NoProof
-  /\ LET r1 == VerifyP1(cs.V, wire) IN
-       IF r1.res # ""
-       THEN /\ FinishVerify([res |-> r1.res, ops |-> r1.ops, degenerate |-> FALSE])
-            /\ UNCHANGED << env, cs, mid, wire, sent, cberr >>
-       ELSE /\ cs.V.ndefer = 0
-            /\ LET r2 == VerifyP2(env.V, cap, r1.st, r1.n1, wire, ch) IN
-                 FinishVerify([r2 EXCEPT !.ops = r1.ops \o r2.ops])
-            /\ cs' = [cs EXCEPT !.V = r1.st]
-            /\ mid' = [mid EXCEPT !.V = [n1 |-> r1.n1]]
-            /\ UNCHANGED << env, wire, sent, cberr >>
+  /\ LET r1 == VerifyP1(cs.V, wire)
+         r2 == IF r1.res = "" THEN VerifyP2(env.V, cap, r1.st, r1.n1, wire, ch) ELSE << >>
+     IN VerifyBoth(r1, r2)
 
 (***************************************************************************)
 (* Properties of a run (state predicates over the variables above).        *)
@@ -195,7 +227,7 @@ Mirror == (ph.P = ph.V /\ ph.P \in {"build", "cb"} /\ Len(tr.P) = Len(tr.V))
             => (PLen(cs.P) = VLen(cs.V) /\ cs.P.pending = cs.V.pending)
 
 \* C16: no half gate survives the phase switch
-PendingClosed == /\ ph.P = "cb" => cs.P.pending = NoPending \/ cs.P.pending >= mid.P.n1
+PendingClosed == /\ ph.P = "cb" => cs.P.pending = NoPending \/ cs.P.pending >= mid.P.ref.n1
                  /\ ph.V = "cb" => cs.V.pending = NoPending \/ cs.V.pending >= mid.V.n1
 
 \* C06: on an honest, unaltered run both roles performed the same transcript operations
